@@ -388,3 +388,10 @@ func init() {
 		Rule: "for 60 (thorough 600) input sets of 1..4 ascending inputs: the fault-free run, a failing Next at every position of every input (single faults, exhaustive), a failing WriteNext at every call (exhaustive), and one sampled double fault; for Merge, MergeCompact(latest wins) and MergeCompact(skip tombstones); plus merges over real tables one of whose data files was cut at every record boundary (with and without a zero tail, opened without load validation); plus memstore flushes in a child process whose write system calls fail beyond a file-size limit, for limits 0..700 (every 7th in the quick tier). Non-trivial: >=2 non-empty inputs and an injected fault.",
 	})
 }
+
+func (c *c11Any) Evals() int {
+	if c.F != nil {
+		return c.F.Evals()
+	}
+	return 1
+}
